@@ -75,6 +75,7 @@ fn programs(fair: bool) -> Vec<Program> {
     v.push(mk("upsert(a,w)||{tick} sweeping b", 100, vec![put(1, 2), put_ttl(2, 2, 1000), adv(3000)], vec![vec![ups(1, Some(3), None, false)], vec![Op::Tick]]));
     // callers that really poll their acknowledgements while the worker completes them (status / waker locks)
     v.push(mk("put(c);await||delete(a);await", 100, vec![put(1, 2)], vec![vec![put(3, 2), Op::Await { call: 0 }], vec![del(1), Op::Await { call: 0 }]]));
+    v.push(mk("put(c);poll_once;await||delete(a);poll_once;await", 100, vec![put(1, 2)], vec![vec![put(3, 2), Op::PollOnce { call: 0 }, Op::Await { call: 0 }], vec![del(1), Op::PollOnce { call: 0 }, Op::Await { call: 0 }]]));
     v.push(mk("delete(a)||upsert(b,w)||{tick} sweeping c", 100, vec![put(1, 2), put(2, 2), put_ttl(3, 2, 1000), adv(3000)], vec![vec![del(1)], vec![ups(2, Some(3), None, false)], vec![Op::Tick]]));
     v
 }
